@@ -107,7 +107,7 @@ package crypto
 //@ func (Multi[*ECDSASignature]).Len property C19
 //@   ensures [def] result == len(sig)
 
-//@ func (*ECDSA).Combine property C19
+//@ func (*ECDSA).Combine property C19,C09
 //@   requires forall k int :: 0 <= k && k < len(signatures) && istype(signatures[k], Multi[*ECDSASignature]) ==> mnonnil(as(signatures[k], Multi[*ECDSASignature]))
 //@   ensures [distinct] result1 == nil ==> istype(result0, Multi[*ECDSASignature]) && mdistinct(as(result0, Multi[*ECDSASignature])) && mnonnil(as(result0, Multi[*ECDSASignature]))
 //@   ensures [atleast2] len(signatures) < 2 ==> result1 != nil
@@ -171,7 +171,7 @@ package crypto
 //@ func (Multi[*EDDSASignature]).Len property C19
 //@   ensures [def] result == len(sig)
 
-//@ func (*EDDSA).Combine property C19
+//@ func (*EDDSA).Combine property C19,C09
 //@   requires forall k int :: 0 <= k && k < len(signatures) && istype(signatures[k], Multi[*EDDSASignature]) ==> mnonnilEd(as(signatures[k], Multi[*EDDSASignature]))
 //@   ensures [distinct] result1 == nil ==> istype(result0, Multi[*EDDSASignature]) && mdistinctEd(as(result0, Multi[*EDDSASignature])) && mnonnilEd(as(result0, Multi[*EDDSASignature]))
 //@   ensures [atleast2] len(signatures) < 2 ==> result1 != nil
@@ -213,6 +213,12 @@ package crypto
 
 // (own-signature-verifies: correctness of the signature scheme and of the replica's own key
 // configuration; assumed, the in-repo Sign implementations call into crypto libraries)
+// Combine: only its frame is used through the interface (the ECDSA and EdDSA implementations
+// have their own contracts: no repeated signer in the result).
+//@ interface Base.Combine
+//@   ensures err == nil ==> signature != nil
+//@   ensures err != nil ==> signature == nil
+//@   modifies alloc
 //@ interface Base.Sign
 //@   ensures err == nil ==> signature != nil
 //@   ensures [own-signature-verifies] err == nil ==> hotstuff.setlen(hotstuff.parts(signature)) >= 1 && (forall id hotstuff.ID :: hotstuff.setmem(hotstuff.parts(signature), id) ==> sigvalid(self, signature, id, content(message)))
